@@ -4,10 +4,10 @@ writes /verif/seeded/matrix.json.  usage: seedmatrix.py [seed ...]"""
 import json, os, sys, time
 sys.path.insert(0, os.path.dirname(__file__))
 import seedtest
-claimed = {c["property_id"] for c in json.load(open("/verif/MANIFEST.json"))["checks"]}
-out_path = "/verif/seeded/matrix.json"
+claimed = {c["property_id"] for c in json.load(open(os.path.join(seedtest.VERIF, "MANIFEST.json")))["checks"]}
+out_path = os.path.join(seedtest.VERIF, "seeded", "matrix.json")
 res = json.load(open(out_path)) if os.path.exists(out_path) else {}
-seeds = sys.argv[1:] or sorted(d for d in os.listdir("/verif/seeded") if os.path.isdir(os.path.join("/verif/seeded", d)))
+seeds = sys.argv[1:] or sorted(d for d in os.listdir(os.path.join(seedtest.VERIF, "seeded")) if os.path.isdir(os.path.join(seedtest.VERIF, "seeded", d)))
 for s in seeds:
     pid = s.split("-")[0]
     if pid not in claimed:
